@@ -368,6 +368,11 @@ pub fn classes(m: &Model) -> Vec<String> {
                     let _ = c.insert(format!("{k}.repeated_var"));
                 }
             }
+            Con::LinLe(..) | Con::LinEq(..) | Con::LinNe(..) | Con::BinEq(..) | Con::BinNe(..) | Con::BinLe(..) | Con::BinLt(..) | Con::AllDiff(..) => {
+                if repeated {
+                    let _ = c.insert("linear.repeated_var".to_string());
+                }
+            }
             Con::Cumul(st, du, rq, cap, _) => {
                 let mut canonical = true;
                 if repeated {
@@ -529,13 +534,18 @@ pub fn gen_hard(r: &mut SmallRng) -> Model {
 
 /// C16 family (a): small support, large magnitude. Domains of <= 3 values placed near powers of two
 /// up to the 32-bit limits, large coefficients / offsets / right-hand sides.
-pub fn gen_big(r: &mut SmallRng, kind: &str) -> Model {
+pub fn gen_big(r: &mut SmallRng, kind: &str, extreme: bool) -> Model {
     const LIM: i64 = (1 << 31) - 1;
     loop {
         let nv = r.gen_range(2..=4);
         let mut m = Model::default();
-        let bases: [i64; 12] =
-            [0, 1, 1 << 15, -(1 << 15), 1 << 16, 46340, 46341, 1 << 30, -(1 << 30), LIM - 3, -LIM + 1, 3];
+        // `extreme`: constants up to the 32-bit limits themselves; otherwise all constants stay below
+        // 2^30 in magnitude (sums and products of a few of them still leave the 32-bit range)
+        let bases: [i64; 12] = if extreme {
+            [0, 1, 1 << 15, -(1 << 15), 1 << 16, 46340, 46341, 1 << 30, -(1 << 30), LIM - 3, -LIM + 1, 3]
+        } else {
+            [0, 1, 1 << 15, -(1 << 15), 1 << 16, 46340, 46341, 1 << 20, -(1 << 24), (1 << 29) + 5, -(1 << 29), 3]
+        };
         for _ in 0..nv {
             let lo = (bases[r.gen_range(0..bases.len())] + r.gen_range(-1..2)).clamp(-LIM, LIM);
             let hi = (lo + r.gen_range(0..3)).min(LIM);
@@ -545,7 +555,7 @@ pub fn gen_big(r: &mut SmallRng, kind: &str) -> Model {
             m.vars.push(Var { dom: vec![0, 1], kind: VarKind::Bool });
         }
         let scales: [i64; 9] = [1, 1, 1, -1, 2, -3, 1000, 32768, 65536];
-        let offs: [i64; 6] = [0, 0, 0, 3, 1 << 16, -(1 << 30)];
+        let offs: [i64; 6] = if extreme { [0, 0, 0, 3, 1 << 16, -(1 << 30)] } else { [0, 0, 0, 3, 1 << 16, -(1 << 28)] };
         let fits = |v: &View, m: &Model| {
             let d = &m.vars[v.var];
             let a = v.s as i128 * d.lo() as i128 + v.o as i128;
@@ -566,7 +576,11 @@ pub fn gen_big(r: &mut SmallRng, kind: &str) -> Model {
             }
             View::plain(0)
         };
-        let rhs_c: [i64; 8] = [0, 5, 1 << 16, 1 << 30, -(1 << 30), LIM, -LIM, 2_000_000_000];
+        let rhs_c: [i64; 8] = if extreme {
+            [0, 5, 1 << 16, 1 << 30, -(1 << 30), LIM, -LIM, 2_000_000_000]
+        } else {
+            [0, 5, 1 << 16, 1 << 29, -(1 << 29), (1 << 30) - 7, -(1 << 30) + 9, 1_000_000_000]
+        };
         let rhs = (rhs_c[r.gen_range(0..rhs_c.len())] + r.gen_range(-2..3)).clamp(-LIM, LIM);
         let n = r.gen_range(1..=3);
         let c = match kind {
